@@ -416,3 +416,6 @@ def campaign(ctx):
     ctx.extra["table_sources"] = len(TABLE)
     ctx.extra["table_exhaustive"] = True
     ctx.run_given(case_strategy(), body, max_examples=ctx.n(1500, 15000))
+    from .. import core as _core
+    import sys as _sys
+    _core.fuzz_tier_hyp(ctx, _sys.modules[__name__])
